@@ -30,7 +30,9 @@ def build_object(v: Dict[str, Any], j: int, compact: bool = False) -> Tuple[str,
     bad = {
         "empty": [""],
         "blank": ["   ", "\t\n", "  "],
-        "toolong": ["l" * (ITEM_MAX + 1), "l" * 1000, " " + "l" * ITEM_MAX],
+        # the limit is on the item as delivered (len(x) <= 200), not on its stripped text: padded items first
+        "toolong": ["do the thing" + " " * ITEM_MAX, "l" * (ITEM_MAX + 1), " " + "l" * ITEM_MAX, "l" * 1000,
+                    "\t" * 150 + "x" + "\n" * 150, "\u3000" * 100 + "step" + "\u3000" * 100],
         "nonstring": [1, None, ["a"], {"a": 1}, True, 1.5],
     }
     if v["plan"] == "nonlist":
